@@ -112,8 +112,10 @@ AllDirs(s) == [n \in DOMAIN s.dirs \cup DOMAIN CoreDirs |-> IF n \in DOMAIN s.di
 CanonUse(s, du) ==
   LET given == [x \in NameSet(du.args) |-> ByName(du.args, x).v]
       decl == IF du.n \in DOMAIN AllDirs(s) THEN AllDirs(s)[du.n].args ELSE <<>>
-      defaulted == {decl[i].n : i \in {i \in DOMAIN decl : decl[i].hasDef}} \ DOMAIN given
-  IN [n |-> du.n, args |-> [x \in DOMAIN given \cup defaulted |-> IF x \in DOMAIN given THEN given[x] ELSE ByName(decl, x).def]]
+      missing == NameSet(decl) \ DOMAIN given          \* an argument not given has its default, or null without one
+  IN [n |-> du.n, args |-> [x \in DOMAIN given \cup missing |->
+                              IF x \in DOMAIN given THEN given[x]
+                              ELSE IF ByName(decl, x).hasDef THEN ByName(decl, x).def ELSE NullV]]
 CanonUses(s, uses) == {CanonUse(s, uses[i]) : i \in DOMAIN uses}
 CanonArgs(s, args) ==
   [n \in NameSet(args) |-> LET a == ByName(args, n) IN
